@@ -267,7 +267,7 @@ impl Property for C14 {
         ]
     }
     fn expected_probes(&self) -> Vec<&'static str> {
-        vec!["sna_loaded", "szx_loaded", "szx_compressed_page", "szx_unknown_chunk", "dirty_receiver", "ay_twin_compared", "halted_flag", "eilast_flag", "encodings_compared", "mismatch_rejected", "scr_loaded", "presence_checked", "locked_file", "display_checked", "display_other_bank_checked"]
+        vec!["sna_loaded", "szx_loaded", "szx_compressed_page", "szx_unknown_chunk", "dirty_receiver", "ay_twin_compared", "halted_flag", "eilast_flag", "encodings_compared", "mismatch_rejected", "scr_loaded", "presence_checked", "locked_file", "display_checked", "display_other_bank_checked", "same_file_loaded_twice"]
     }
 
     fn gen(&self, rng: &mut Rng, _tier: Tier, idx: u64) -> Scenario {
@@ -365,6 +365,16 @@ impl Property for C14 {
                 let mut drng = Rng::new(sc.get("seed") as u64 ^ 0xD1);
                 let mut r1 = mk(m128, dirt, &mut drng, !s.mouse, !s.kempston);
                 let mut r2 = mk(m128, 0, &mut drng, false, false);
+                // the same file loaded twice: the dirty receiver has already loaded this very file (and, in half
+                // of the cases, run a frame of it) when it is loaded for the comparison
+                if (sc.get("seed") >> 7) & 3 == 0 {
+                    ctx.probe("same_file_loaded_twice");
+                    if let Ok(Ok(())) = load(&mut r1, fmt, &bytes, chunk) {
+                        if (sc.get("seed") >> 9) & 1 == 0 {
+                            let _ = run_frames(&mut r1, 1);
+                        }
+                    }
+                }
                 for (e, dn) in [(&mut r1, dname), (&mut r2, "fresh")] {
                     match load(e, fmt, &bytes, chunk) {
                         Err(pi) => return Err(Fail::new("C14.panic", &format!("format={},at={}", ["sna", "szx"][fmt], crate::runner::panic_site(&pi)), format!("loading a well-formed {} file into a {} receiver panicked at {}:{}: {}", ["sna", "szx"][fmt], dn, pi.file, pi.line, pi.msg))),
